@@ -100,7 +100,8 @@ def main():
         def cls(x):
             return ids.setdefault(x, len(ids))
         names = [c.alias_or_name for c in e.ctes]
-        ctes = [[cls(c.args["branch_id"]), cls(c.args["sequence_id"]), list(c.this.named_selects)] for c in e.ctes]
+        ctes = [[cls(c.args["branch_id"]), cls(c.args["sequence_id"]), ["^" if n in names else n for n in c.this.named_selects]]
+                for c in e.ctes]
 
         def idx(t):
             if not t:
@@ -109,7 +110,7 @@ def main():
         sel = []
         for x in e.expressions:
             cols = list(x.find_all(exp.Column))
-            sel.append([idx(cols[0].table) if cols else None, x.alias_or_name])
+            sel.append([idx(cols[0].table) if cols else None, "^" if x.alias_or_name in names else x.alias_or_name])
         frm = e.args.get("from")
         ftab = frm.this.alias_or_name if frm is not None else None
         joins = []
